@@ -376,7 +376,12 @@ EVALS = {
 
 
 def replay(case):
-    return EVALS[case["kind"]](case)
+    if case.get("mode") == "O" and __debug__:
+        return core.call_in_child("mc.checks.c12", "replay", case, optimized=True)
+    found = EVALS[case["kind"]](case)
+    if not __debug__:
+        found = [(k + ":python-O", d) for k, d in found]
+    return found
 
 
 # ---------------------------------------------------------------------------
@@ -384,8 +389,11 @@ def replay(case):
 # ---------------------------------------------------------------------------
 def _do(acc, case, cls):
     acc.ev()
+    if not __debug__:
+        case = dict(case, mode="O")
+        cls = cls + ("python-O",)
     acc.cls(*cls)
-    for key, desc in EVALS[case["kind"]](case):
+    for key, desc in replay(case):
         acc.violation(key, desc, case)
 
 
@@ -614,7 +622,16 @@ def run(ctx):
         for e in names:
             tasks.append({"part": "pattern3", "engine": e, "pat": pat, "seed": seed})
     ctx.log(f"{len(tasks)} shards")
-    acc = core.pmap(work_dispatch, tasks)
+    # the repair / refusal / integer-lane parts once more in a `python -O` child (asserts stripped)
+    otasks = [t for t in tasks if t["part"] in ("lastchar", "bad_text", "int_text", "helper_bad", "strings")
+              or (t["part"] == "ints" and t.get("bits", 99) <= 12)]
+    import concurrent.futures
+
+    with concurrent.futures.ThreadPoolExecutor(1) as ex:
+        fut = ex.submit(core.call_in_child, "mc.checks.c12", "child_run", {"tasks": otasks}, True)
+        acc = core.pmap(work_dispatch, tasks)
+        acc_o = fut.result()
+    ctx.merge(acc_o, part="python-O")
     # distinct classes for the bulk-enumerated groups are counted, not stored
     bulk = acc.counters.get("distinct_group_cases", 0)
     ctx.merge(acc)
@@ -625,6 +642,11 @@ def run(ctx):
     )
     if ctx.quick:
         ctx.assume("quick tier: 3-byte groups restricted to a 40-value bit-pattern alphabet per byte; thorough enumerates all 2^24")
+
+
+def child_run(payload):
+    """entry point inside a `python -O` child"""
+    return core.pmap(work_dispatch, payload["tasks"])
 
 
 def work_dispatch(task):
